@@ -88,9 +88,12 @@ pub fn run(stim: &Value, rec: &Rec) {
         let (sig_tx, sig_rx) = tokio::sync::oneshot::channel::<()>();
         let mut sig_tx = Some(sig_tx);
         let log_s = log.clone();
+        let srv_timeout = stim["timeout_ms"].as_u64();
         let svc = SvcServer::new(h.clone());
         let serve = tokio::spawn(async move {
-            let r = tonic::transport::Server::builder().max_connection_age(Duration::from_millis(AGE_MS)).add_service(svc)
+            let mut b = tonic::transport::Server::builder().max_connection_age(Duration::from_millis(AGE_MS));
+            if let Some(ms) = srv_timeout { b = b.timeout(Duration::from_millis(ms)); }      // Server::timeout: bounds the handler future, not the response stream
+            let r = b.add_service(svc)
                 .serve_with_incoming_shutdown(Incoming { rx, log: log_s.clone() }, async move { if sig_rx.await.is_err() { std::future::pending::<()>().await } }).await;
             log_s.ev(json!({"e":"resolved","ok":r.is_ok()}));
         });
@@ -137,6 +140,7 @@ pub fn run(stim: &Value, rec: &Rec) {
                 "fire" => { if let Some(t) = sig_tx.take() { let _ = t.send(()); } }
                 "end_incoming" => { tx.take(); }
                 "age" => { tokio::time::sleep(Duration::from_millis(AGE_MS)).await; }
+                "wait" => { tokio::time::sleep(Duration::from_millis(st["ms"].as_u64().unwrap_or(1000))).await; }
                 "release" => { h.gate(st["k"].as_u64().unwrap() as u8).add_permits(1); }
                 "drop" => {
                     let c = st["c"].as_u64().unwrap();
